@@ -82,7 +82,7 @@ const (
 	didJp  = "did:web:example.com:iam:issuer"
 	didJx  = "did:web:example.com:iam:issuer20"
 	didRt  = "did:web:example.com"
-	didB   = "did:web:based.example.com" // its document uses @base + relative key ids
+	didB   = "did:web:based.example.com"    // its document uses @base + relative key ids
 	didE   = "did:web:example.com:iam:p384" // its assertion key is a P-384 key
 	ctxVC  = "https://www.w3.org/2018/credentials/v1"
 	ctxNut = "https://nuts.nl/credentials/v1"
